@@ -168,6 +168,7 @@ func c18R1(c *Ctx) {
 	c.Floor("C18.R1", "default-network append", 1, n)
 	// matchOnePodNetworking: a definition matches only if every selector it has matches
 	mo := p.Func(webhookPkg, "matchOnePodNetworking")
+	p.Func(webhookPkg, "PodMatchSelector") // anchor: the selector test is matched by name below
 	if mo == nil {
 		c.Unres("C18.R1", "matchOnePodNetworking", "not found")
 		return
